@@ -184,6 +184,9 @@ func receiveFromTransport(ctx context.Context, c *channel, done chan<- struct{})
 		if err != nil {
 			if ctx.Err() == nil {
 				log.Printf("receiveFromTransport: %v", err)
+				// Nothing reads from this transport any more: release it, so that the
+				// channel is not reported as established while it is deaf
+				_ = c.transport.Close()
 			}
 			return
 		}
